@@ -970,7 +970,7 @@ impl StoreWorkload {
                         c[p] = rng.base();
                     }
                     let own_len = rng.range(7000, 10000);
-                    Sample { name: format!("s{i}"), records: vec![("core".into(), c), ("own".into(), rng.dna(own_len))], wrap: 70 }
+                    Sample { name: format!("s{i}"), records: vec![("core".into(), c), ("own".into(), rng.dna(own_len))], wrap: 70, path: None, lower: false }
                 })
                 .collect();
             let mut ops = vec![Op::Build { out: "b1".into(), samples: (0..n).collect(), k, single_strand: rng.chance(30), list: false, threads: 1 }];
@@ -984,6 +984,9 @@ impl StoreWorkload {
         }
         let fits64 = k >= 35 && matches!(focus, "C07" | "C10") && rng.chance(25);
         let mut samples = if fits64 { gen_fits64_samples(&mut rng, n, k, "s") } else { gen_samples(&mut rng, n, k, &o, "s") };
+        if !fits64 && rng.chance(30) {
+            crate::gen::vary_paths(&mut rng, &mut samples);
+        }
         if focus == "C08" && rng.chance(25) {
             // unusual but legal sample names (they come from file names when building from
             // positional arguments): a space, a dot, a name that is a prefix of another
@@ -993,6 +996,7 @@ impl StoreWorkload {
                 1 => format!("s{}.v2", (i + 1) % n),
                 _ => format!("s{}", (i + 1) % n * 10 + 1),
             };
+            samples[i].path = None;
             let nm: BTreeSet<&String> = samples.iter().map(|s| &s.name).collect();
             if nm.len() != samples.len() {
                 samples[i].name = format!("s{i}");
@@ -1372,7 +1376,7 @@ impl Workload for StoreWorkload {
     }
     fn execute(&self, c: &StoreCase, ctx: &mut Ctx) -> Result<Outcome, HarnessError> {
         for s in &c.samples {
-            ctx.dir.write(&s.file(), s.fasta().as_bytes());
+            ctx.dir.write(&s.file(), &s.bytes());
         }
         for (n, d) in &c.extra {
             ctx.dir.write(n, d.as_bytes());
